@@ -251,6 +251,9 @@ def render_value(v):
             return 'float("-inf")', True
         if c == "nzero":
             return "(-0.0)", True
+        if c == "oom":          # a finite non-zero double outside the dyadic model, written as given (e.g. 1e-300)
+            t = v["txt"]
+            return ("(%s)" % t if t.startswith("-") else t), True
         x = v["m"] / (1 << v["e"])
         t = repr(abs(x))
         if "e" in t or "E" in t:
